@@ -41,3 +41,52 @@ class LemmaDistinctSystemBytes:
         M = 2 ** 32
         return {"distinct-within-2^32": ([0 <= c, c < M, 1 <= j, j < k, k - j < M], (c + j) % M != (c + k) % M,
                                          {"in:c": {"kind": "int", "term": c}, "in:j": {"kind": "int", "term": j}, "in:k": {"kind": "int", "term": k}})}
+
+
+# =============================================================================================== routing (O40)
+from contracts.C05_session import OnMessage, PutNowaitAbs, FireAbs, DecodeForLogAbs  # noqa: E402
+from contracts.C16_secsi import hdr_obj as secsi_hdr_obj  # noqa: E402
+from secsgem.common.events import EventProducer  # noqa: E402
+from secsgem.secs.functions.streams_functions import StreamsFunctions  # noqa: E402
+from secsgem.secsi.message import SecsIBlock, SecsIMessage  # noqa: E402
+from secsgem.secsi.settings import SecsISettings  # noqa: E402
+from spec.ext import AbsQueue  # noqa: E402
+
+
+@contract("secsgem.hsms.protocol:HsmsProtocol._on_connection_message_received", "C06", name="HsmsRouting")
+class HsmsRouting(OnMessage):
+    """O40 for HSMS (the same unit as C05's OnMessage, all 36 cases): a message whose system bytes have a waiting
+    requester goes to that requester's queue exactly once and to no other queue and raises no message_received event -
+    data messages and control responses alike, in every session state, for all 2^32 system byte values and any set of
+    other open transactions; without a requester a data message in SELECTED raises exactly one message_received."""
+
+
+@contract("secsgem.secsi.protocol:SecsIProtocol._on_connection_message_received", "C06")
+class SecsIRouting:
+    """O40 for SECS-I: routed to exactly the requester with these system bytes, else one message_received."""
+
+    cases = None
+    uses = [PutNowaitAbs, FireAbs, DecodeForLogAbs]
+
+    def inputs():
+        return {"self": Obj(SecsIProtocol, _response_queues=MapOf(AbsQueue, g_puts=Int),
+                            _event_producer=Obj(EventProducer, g_delivered=Int, g_other=Int),
+                            _settings=Obj(SecsISettings, streams_functions=Obj(StreamsFunctions))),
+                "source": Const(None),
+                "message": Obj(SecsIMessage, _blocks=FixedList(Obj(SecsIBlock, _header=secsi_hdr_obj(), _data=Bytes())))}
+
+    def requires(message):
+        return 0 <= message._blocks[0]._header._system < 2 ** 32
+
+    def raises():
+        return {}
+
+    def ensures(self, message, old):
+        sys = message._blocks[0]._header._system
+        q, q0 = self._response_queues, old.self._response_queues
+        was_open = sys in q0
+        return {
+            "routed-to-requester-exactly-once-iff-open": q[sys].g_puts - q0[sys].g_puts == ite(was_open, 1, 0),
+            "delivered-to-application-exactly-once-iff-no-requester": self._event_producer.g_delivered - old.self._event_producer.g_delivered == ite(was_open, 0, 1),
+            "other-requesters-untouched": forall(0, 2 ** 32, lambda k: implies(k != sys, lambda: q[k].g_puts == q0[k].g_puts)),
+        }
